@@ -375,14 +375,17 @@ def negative_cash_directed(ctx):
     from rqalpha.environment import Environment
     rnd = random.Random(ctx.rnd.random())
     for auto in (False, True):
-        S = B.gen_market(rnd, ndays=4, warm=1, n_stocks=1, with_future=False, opts={"kinds": ["CS"], "p_delist": 0, "p_split": 0, "p_div": 0, "p_sus": 0, "p_limit": 0, "p_thin": 0})
+        S = B.gen_market(rnd, ndays=5, warm=1, n_stocks=2, with_future=False, opts={"kinds": ["CS"], "p_delist": 0, "p_split": 0, "p_div": 0, "p_sus": 0, "p_limit": 0, "p_thin": 0})
         st = S["stocks"][0]
         oid = st["id"]
+        oid2 = S["stocks"][1]["id"]
         # every day opens above its close: vwap = (open + close) / 2 > close = the price a market order reserves
         for i, b in list(st["bars"].items()):
             d14, o, c, hi, lo, v, tt, lu, ld = b
             o2 = min(lu, round(c * 1.04, 2))
             st["bars"][i] = (d14, o2, c, max(o2, c), min(o2, c), v, v * round((o2 + c) / 2, 2), lu, ld)
+        # on the third day the first stock is suspended: order_target_portfolio cannot sell it to make room, the cash estimate stays negative
+        S["sus"].setdefault(oid, []).append(B.d8(S["cal"][S["warm"] + 2]))
         log = []
         state = {"day": 0}
 
@@ -406,6 +409,14 @@ def negative_cash_directed(ctx):
                     except Exception as ex:
                         r = "raised:%s:%s" % (type(ex).__name__, str(ex)[:80])
                     log.append((name, cash, r))
+            elif state["day"] == 3:
+                cash = acct.cash
+                try:
+                    rr = api.order_target_portfolio({oid2: 0.2})
+                    r = [(o.side.name, o.quantity) for o in rr if o is not None]
+                except Exception as ex:
+                    r = "raised:%s:%s" % (type(ex).__name__, str(ex)[:80])
+                log.append(("order_target_portfolio", cash, r))
         res, exc = runner.run_real(S, dict(accounts={"stock": 2000000.0}, sim={"matching_type": "vwap", "slippage": 0, "volume_limit": False, "price_limit": False},
                                            accounts_mod={"stock_t1": False, "auto_switch_order_value": auto}, risk={"validate_cash": False}),
                                    {"init": lambda c: None, "handle_bar": handle_bar})
@@ -414,6 +425,9 @@ def negative_cash_directed(ctx):
             ctx.stats["negative_cash_calls"] += int(cash < 0)
             ctx.nontrivial("negative_cash", name, auto, cash < 0, str(r)[:12])
             ctx.notes.append("negative-cash scenario: %s auto_switch=%s cash=%.2f -> %s" % (name, auto, cash, r))
+            if name == "order_target_portfolio" and cash < 0 and isinstance(r, list) and any(sd == "BUY" and q <= 0 for sd, q in r):
+                ctx.witness("C15.5", {"kind": "non_positive_buy_quantity", "api": name}, "order_target_portfolio({%s: 0.2}) with available cash %r (the only holding is suspended and cannot be sold): orders %r" % (oid2, cash, r),
+                            {"scenario": "negative_cash_directed", "auto_switch": auto, "api": name, "cash": cash})
             if cash < 0 and isinstance(r, tuple) and r[0] == "SELL":
                 ctx.witness("C15.1", {"kind": "buy_request_creates_sell", "api": name, "auto_switch": auto},
                             "%s (a request to BUY) with available cash %r%s created a SELL order for %s shares" % (name, cash, " and auto_switch_order_value" if auto else "", r[1]),
